@@ -190,13 +190,16 @@ class Surrogates(Cached):
         mean = self.original_data.mean(axis=1)
         std = self.original_data.std(axis=1)
 
+        #  NOTE: not in place, `original_data` may be the caller's array
+        normalized = self.original_data.copy()
         for i in range(self.N):
             #  Remove mean value from time series at each node (grid point)
-            self.original_data[i, :] -= mean[i]
+            normalized[i, :] -= mean[i]
             #  Normalize the standard deviation of anomalies to one
             if std[i] != 0:
-                self.original_data[i, :] /= std[i]
+                normalized[i, :] /= std[i]
 
+        self.original_data = normalized
         self._normalized = True
 
     @staticmethod
